@@ -75,7 +75,7 @@ CLAIMED['C18'] = {
              'eps/delta version) over lists of concave goods with prices, so a forecast satisfying the checked conditions is at least as good as any feasible '
              'point, brute force included; the outside good has unbounded marginal utility at 0; the symbolic validation utility evaluates (evalX) to the numeric '
              'closed form; relabelling by any injective map commutes with the marginal-utility and consumption tables; the rational checker kkt_checkQ is sound. '
-             'Tied by streams pieces, trees (structural expr_eqb) and forecast (bisection output, public API, brute force and relabelings; every forecast '
+             'The three defects found (label/position test, comparison ordering, stale dual after the budget stop) are repaired in /repo; their witnesses remain in corpus/C18. Tied by streams pieces, trees (structural expr_eqb) and forecast (bisection output, public API, brute force and relabelings; every forecast '
              're-checked by kkt_checkQ in Coq on exact rationals).'),
     'note': KERNEL + 'PARTIAL: convergence of the bisection to its tolerance, the greedy chosen-set identification and SLSQP are numerical and only sampled; '
             'floating-point rounding outside the theorems; the specialised extractor in lib/props/C18.py; CPython set order modelled as an arbitrary duplicate-free list.',
@@ -94,6 +94,21 @@ CLAIMED['C11'] = {
              '[0.075, 0.45] U (0.925, 1): reported as a KNOWN-FINDING (cannot be repaired: an existing test pins numbers computed with it).'),
     'note': KERNEL + 'the C11 ast extractor; RNG observation by wrapping np.random.uniform / shuffle; numpy RNG an arbitrary input; libm erfc, log, sqrt; binary64 '
             'rounding bounded by the stated per-stream tolerances.',
+}
+
+CLAIMED['C20'] = {
+    'technique': 'Rocq proof over tables and a wrapper program regenerated from source on every run (tie A, whole-package ast extraction) + run-time correspondence and side-by-side calls (tie B)',
+    'text': ('Axiom-free theorems over the extracted tables (120 @deprecated aliases, 118 classes, 19 keyword maps): declared parameters equal those of the '
+             'replacement (3 reviewed entries); the replacement is the function the old name designates (camelCase/snake_case folding, 3 reviewed renamings); on '
+             'every package class exposing the alias (624 class x alias pairs, 47 with a redefining subclass) calling it reaches exactly the function obtained by '
+             'resolving the new name on that class (C3 MRO computed in Coq; the wrapper of deprecated.py translated statement by statement and interpreted; the '
+             'statement is proved false for the pre-repair captured-function wrapper); module-level and static aliases; keyword maps well formed; the wrapper adds '
+             'exactly one DeprecationWarning and forwards all arguments; the keyword-renaming loop characterised by induction for all maps and calls. Ties: the '
+             'extraction compared on every run with Python\'s own __deprecated__ objects, closures, __mro__ and with the function actually entered on every exposing '
+             'class; old and new names called side by side (all 120 aliases, all instantiable overriding pairs, all renamed keywords) comparing results, exceptions, '
+             'state, files, logs and warnings. PARTIAL: bodies of replacements are not modelled (sameness of results observed, not proved).'),
+    'note': KERNEL + 'the fail-closed extractor in lib/props/C20.py; reviewed exception tables in Model/Alias.v; argument recipes of the dynamic stream; doubles '
+            'from the multithreaded engine compared within 1e-9 relative.',
 }
 
 _NOT_YET = 'check not built yet in this session (framework under construction); no claim made'
